@@ -633,3 +633,39 @@ def run(ctx: Context) -> None:  # noqa: F811
                        " - not the read lock: the batch this event belongs to was read under the lock but is dispatched after it was released; another task can read and enqueue the NEXT "
                        "batch first, so a stream's body arrives reordered (or its earlier part is dropped once the stream has ended)"))
     rep.floor("C01.R12", "appends to per-stream event queues (both trees)", n, 2)
+
+
+
+_core_run_r13 = run
+
+
+def run(ctx: Context) -> None:  # noqa: F811
+    _core_run_r13(ctx)
+    rep = ctx.rep
+    rep.rule("C01.R13", "HTTP/1.1: the routine that ends an exchange does not itself consume response events.  h11 marks our side DONE when the last request event is HANDED to it, before the "
+                        "bytes are written; the both-sides-DONE test of the IDLE transition is sound only because the peer's side can advance solely in the receive phase, which starts "
+                        "after the send phase has completed - a close routine that reads (drains) can reach DONE/DONE after a failed or cancelled send and hand the connection on "
+                        "with a half-sent request on the wire")
+    n = 0
+    for tree, N in trees(ctx):
+        h11c = N.cls("http11", "AsyncHTTP11Connection")
+        rc = h11c.methods.get(N.t("_response_closed"))
+        if rc is None:
+            raise AnalysisError("anchor vanished: _response_closed of the HTTP/1.1 connection")
+        reach = ctx.callgraph.reachable([rc], stop=lambda g: g.cls is not h11c)
+        n += 1
+        bad = []
+        for q, path in reach.items():
+            g = ctx.callgraph.funcs.get(q)
+            if g is None or g.cls is not h11c:
+                continue
+            for c in own_nodes(g.node):
+                if isinstance(c, ast.Call) and norm(c.func) in ("self._h11_state.next_event", "self._h11_state.receive_data", "self._network_stream.read"):
+                    bad.append((g, c, path))
+        g0, c0, p0 = bad[0] if bad else (rc, None, [])
+        rep.ob("C01.R13", fkey(tree, rc, "close-does-not-read"), not bad, where(g0, c0),
+               "the response-close routine (and what it calls) never advances the peer side of the h11 state machine" if not bad else
+               f"`{ast.unparse(c0)[:50]}` in {g0.short} is reachable from the response-close routine ({' > '.join(x.split(':')[-1] for x in p0)}): after a send that failed or was cancelled "
+               "once h11 had already counted the request as complete, reading the (early) response here takes both sides to DONE - the connection becomes IDLE and the next "
+               "request is written after an unterminated one")
+    rep.floor("C01.R13", "HTTP/1.1 response-close routines (both trees)", n, 2)
